@@ -784,3 +784,17 @@ func closureOf(v ssa.Value) *ssa.Function {
 	}
 	return nil
 }
+
+// returnedValue resolves result idx of a Return through the result cell that
+// go/ssa introduces in functions with defers (store; rundefers; load; return).
+func returnedValue(r *ssa.Return, idx int) ssa.Value {
+	v := r.Results[idx]
+	if ld, ok := v.(*ssa.UnOp); ok && ld.Op == token.MUL {
+		if _, isAlloc := ld.X.(*ssa.Alloc); isAlloc {
+			if st := lastStoreBefore(ld, ld.X); st != nil {
+				return st.Val
+			}
+		}
+	}
+	return v
+}
